@@ -688,7 +688,8 @@ func (f *Frame) applyContract(sig *types.Signature, ct *Contract, env map[string
 			case "Slice":
 				s.fact(app("<", sliceField("s.ref", sv.T), na))
 			case "Int":
-				if _, isPtr := sv.Ty.Underlying().(*types.Pointer); isPtr {
+				switch sv.Ty.Underlying().(type) {
+				case *types.Pointer, *types.Map, *types.Chan:
 					s.fact(app("<", sv.T, na))
 				}
 			case "Any":
